@@ -40,11 +40,12 @@ def _parse_command_line(cli_args = None):
 
 def _create_override_tuple(key, has_value = True):
   # TODO: Error handling for malformed options
-  section,key = key.split(":", 1)
   if has_value:
     key, value = key.split("=", 1)
   else:
     value = None
+  # Split at the last colon: section names may contain colons themselves ([Table-Form:NAME]), keys can't.
+  section,key = key.rsplit(":", 1)
   retval = ConfigParserOverrideTuple(section = section, key = key, value = value)
   return retval
 
